@@ -229,13 +229,16 @@ class ParallelRunner(SimpleRunner):
         self.keep_growth = True
         self.search_fams = thorough
         self.stats = {}
+        self.traces = set()
 
     def _run(self, res, fams, seed, exact=True):
         import time
         for fam, size in fams:
+            pin = fam.endswith('@pinned')
+            fam = fam.replace('@pinned', '')
             t = time.time()
-            cases = run.gen_cases(fam, size, seed)
-            impl = run.run_impl(cases, threads=1, timeout=3600)
+            cases = run.gen_cases(fam, size, seed + (1 if pin else 0))
+            impl = run.run_impl(cases, threads=1, timeout=3600, pin=pin)
             if impl is None:
                 res.oracle_failures.append((None, 'the harness died while running the parallel cases', ''))
                 return
@@ -250,6 +253,7 @@ class ParallelRunner(SimpleRunner):
                     continue
                 res.evaluations += 1
                 if fam == 'par_x':
+                    self.traces.add(o.split(' ')[0])
                     if exact and not m.startswith('accept') and 'HANG' not in o and 'PANIC' not in o:
                         res.exact_diffs.append((c, o, m))
                     if m.startswith('accept') and 'states=' in m:
@@ -264,7 +268,7 @@ class ParallelRunner(SimpleRunner):
                 if v.nontrivial:
                     nt += 1
             res.nontrivial += nt
-            res.families[fam] = res.families.get(fam, 0) + len(cases)
+            res.families[fam + ('@pinned' if pin else '')] = len(cases)
             if cases:
                 res.samples.append({'family': fam, 'case': cases[0][:300], 'impl': impl[0][:400], 'model': model[0][:200]})
             res.notes.append('%s: %d cases in %.1fs' % (fam, len(cases), time.time() - t))
@@ -290,7 +294,7 @@ class ParallelRunner(SimpleRunner):
         trans = sum(int(x.split('trans=')[1].split(' ')[0]) for x in st)
         dead = sum(int(x.split('dead=')[1].split(' ')[0]) for x in st)
         return {'states': states, 'transitions': trans, 'model_deadlocks_in_explored_configs': dead,
-                'configs_fully_explored': len(st)}
+                'configs_fully_explored': len(st), 'distinct_traces_recorded': len(self.traces)}
 
 
 ASSUME_PAR = [
@@ -301,7 +305,7 @@ ASSUME_PAR = [
 
 PROPS['C07'] = dict(
     theorems=[],
-    runner=ParallelRunner(quick=[('par_x', 1500), ('par_y', 1500)], thorough=[('par_x', 40000), ('par_y', 30000)],
+    runner=ParallelRunner(quick=[('par_x', 1200), ('par_x@pinned', 400), ('par_y', 1500)], thorough=[('par_x', 40000), ('par_x@pinned', 20000), ('par_y', 30000), ('par_y@pinned', 10000)],
                           which={'deliver'}),
     rule='mock parallel::Reader with tagged data sets through read_parallel_init (T 1-4, Q 1-4, 0-40 batches, reader errors, init failures, '
          'early exit) under scheduling noise, trace accepted by the Lean protocol model; real parallel_fasta/fastq on generated files '
@@ -310,7 +314,7 @@ PROPS['C07'] = dict(
 )
 PROPS['C08'] = dict(
     theorems=[],
-    runner=ParallelRunner(quick=[('par_x', 1500), ('par_y', 500), ('par_z', 500)], thorough=[('par_x', 40000), ('par_y', 10000), ('par_z', 10000)],
+    runner=ParallelRunner(quick=[('par_x', 1500), ('par_y', 500), ('par_z', 500)], thorough=[('par_x', 40000), ('par_x@pinned', 20000), ('par_y', 10000), ('par_z', 10000)],
                           which={'terminate'}),
     rule='same runs as C07 under a 15 s watchdog per call and a thread census (with grace period) after each call; '
          'consumer plans: drain / stop after k for every k / never ask; reader error; reader- and data-set-init failures',
@@ -318,7 +322,7 @@ PROPS['C08'] = dict(
 )
 PROPS['C15'] = dict(
     theorems=[],
-    runner=ParallelRunner(quick=[('par_x', 1500), ('par_y', 1500), ('par_z', 1500)], thorough=[('par_x', 40000), ('par_y', 30000), ('par_z', 30000)],
+    runner=ParallelRunner(quick=[('par_x', 1500), ('par_y', 1500), ('par_z', 1500)], thorough=[('par_x', 40000), ('par_x@pinned', 20000), ('par_y', 30000), ('par_z', 30000)],
                           which={'errors'}),
     rule='reader error at the end of 0-40 batches, each initialisation closure failing at each call index, consumers that stop at or '
          'continue after the error; real readers on mutated input: parallel error message equals sequential error message',
@@ -326,7 +330,7 @@ PROPS['C15'] = dict(
 )
 PROPS['C16'] = dict(
     theorems=[],
-    runner=ParallelRunner(quick=[('par_x', 1500), ('par_y', 800)], thorough=[('par_x', 40000), ('par_y', 20000)], which={'bounded'}),
+    runner=ParallelRunner(quick=[('par_x', 1500), ('par_y', 800)], thorough=[('par_x', 40000), ('par_x@pinned', 20000), ('par_y', 20000)], which={'bounded'}),
     rule='creation counter of the data-set initialiser and run-ahead (fills minus results logged) at every point of every trace; '
          'inputs up to 40 batches with queue lengths 1-4; real parallel_fasta/fastq with a counting per-record output type: creations <= (Q+1) x largest batch; non-trivial = recycling happened',
     assumptions=ASSUME_PAR + ['memory is not measured; the claim is carried by the counts of data sets'],
